@@ -245,7 +245,7 @@ def load_run(reg):
     reg.contract("DEVSSimulator._run", params={},
                  requires=["SINV(self)", "PWF(self)", "self._replication is not None", "instance(self._replication, 'Replication')",
                            "not isnan(%s)" % B, "self._simulator_time <= %s" % B, NONTERM],
-                 may_raise=[("Exception", "True")], on_raise="any",      # a raising *listener* of TIME_CHANGED (assumption: none)
+                 may_raise=[("CallbackError", "True")], on_raise="any",      # a raising *listener* of TIME_CHANGED
                  ensures=["SINV(self)", "old(self._simulator_time) <= self._simulator_time",      # the clock never moves backwards
                           EXEC_EXT, FIXED,
                           # every normal exit leaves the simulator not running
@@ -275,16 +275,22 @@ def load_run(reg):
                                    "not contains(%s, ENTRY(event))" % LS],
                           assign=[("self.g_executed", "self.g_executed + [ENTRY(event)]")])
     reg.contract("DEVSSimulator._step_impl", params={},
-                 requires=["SINV(self)", "PWF(self)", NONTERM],
-                 may_raise=[("Exception", "True"), ("DSOLError", "True")], on_raise="any",
-                 ensures=["SINV(self)", "old(self._simulator_time) <= self._simulator_time",
+                 requires=["SINV(self)", "PWF(self)", NONTERM, "self._replication is not None",
+                           "instance(self._replication, 'Replication')", "not isnan(%s)" % E, "self._simulator_time <= %s" % E],
+                 may_raise=[("CallbackError", "True"), ("DSOLError", "True")], on_raise="any",
+                 ensures=["SINV(self)", "old(self._simulator_time) <= self._simulator_time", "self._simulator_time <= %s" % E,
+                          "self._replication == old(self._replication) and replication_unchanged(self)",
                           # at most one event is executed: the minimum of the pending ones
                           "len(self.g_executed) <= len(old(self.g_executed)) + 1",
                           "subseq(self.g_executed, 0, len(old(self.g_executed))) == old(self.g_executed)"],
-                 exc_ensures=["SINV(self)", "len(self.g_executed) <= len(old(self.g_executed)) + 1"],
+                 exc_ensures=["SINV(self)", "len(self.g_executed) <= len(old(self.g_executed)) + 1",
+                              "old(self._simulator_time) <= self._simulator_time", "self._simulator_time <= %s" % E,
+                              "self._replication == old(self._replication) and replication_unchanged(self)"],
                  modifies=["heap.*"], props=C02 + C05, axiom_sets=AX)
     reg.ghost_before_call("DEVSSimulator._step_impl", "execute",
                           asserts=["same(self._simulator_time, event._absolute_time)",
+                                   # no command ever executes an event later than the replication end
+                                   "event._absolute_time <= %s" % E,
                                    "forall('e:%s', implies(contains(%s, e), le_e(ENTRY(event), e)))" % (ENT_S, LS)],
                           assign=[("self.g_executed", "self.g_executed + [ENTRY(event)]")])
     # listeners of the simulator's own events are callbacks with the same rely condition
@@ -310,3 +316,100 @@ _load_sched = load
 def load(reg):      # noqa: F811
     _load_sched(reg)
     load_run(reg)
+
+
+def load_commands(reg):
+    """start / step / stop / bounded runs: guards, refusal frames, effects (C03, C04a, C05)."""
+    C03, C04, C05 = ["C03"], ["C04"], ["C05"]
+    AX = ("heap", "seqref")
+    DS = ["DEVSSimulator"]
+    RS = "self._run_state"
+    PS = "self._replication_state"
+    E = "asref(self._replication, 'Replication')._run_control._end_sim_time"
+    RUNNING = "(%s == RunState.STARTING or %s == RunState.STARTED)" % (RS, RS)
+    # documented start rule: not running, a replication is known, initialized, replication INITIALIZED or STARTED, clock before the end
+    CAN_START = ("(not %s and self._replication is not None and %s != RunState.NOT_INITIALIZED"
+                 " and (%s == ReplicationState.INITIALIZED or %s == ReplicationState.STARTED)"
+                 " and self._simulator_time < %s)" % (RUNNING, RS, PS, PS, E))
+    WFREP = ("implies(self._replication is not None, instance(self._replication, 'Replication') and not isnan(%s))"
+             " and not isnan(self._simulator_time)"
+             # an initialized simulator has its run thread object
+             " and implies(%s != RunState.NOT_INITIALIZED, self._Simulator__worker is not None and self._replication is not None)" % (E, RS))
+    # threading hand-off (not modelled): the worker object's methods do not touch the simulator
+    for m, ret in (("wakeup", None), ("is_waiting", "bool"), ("is_finalized", "bool"), ("cleanup", None), ("is_running", "bool")):
+        reg.contract("SimulatorWorkerThread.%s" % m, abstract=True, params={}, returns=ret, modifies=[],
+                     effects="thread hand-off", note="threading dependency: assumed not to touch simulator state")
+    reg.trust("threading: SimulatorWorkerThread.wakeup/is_waiting/is_finalized/cleanup do not modify simulator state; the hand-off to the "
+              "run thread is modelled as happening after the command returns (commands are verified at quiescence); "
+              "interleavings of a command with the run thread's own transitions are NOT covered")
+    reg.contract("Simulator._check_start", params={}, requires=[WFREP],
+                 raises=[("DSOLError", "not %s" % CAN_START)], modifies=[], pure=True, for_classes=DS, props=C03 + C04)
+    reg.contract("Simulator._check_stop_time", params={"stop_time": "obj"},
+                 requires=[WFREP, "self._replication is not None", "isnum(stop_time)"],
+                 raises=[("DSOLError", "not (self._simulator_time <= num(stop_time) and num(stop_time) <= %s)" % E)],
+                 modifies=[], pure=True, for_classes=DS, props=C03)
+    # (a listener notified of the start may itself call stop(): STOPPING is then already requested)
+    STARTED_POST = ["%s == RunState.STARTING or %s == RunState.STOPPING" % (RS, RS), "%s == ReplicationState.STARTED" % PS,
+                    "self._replication == old(self._replication) and replication_unchanged(self)"
+                    " and self._eventlist == old(self._eventlist) and self._Simulator__worker == old(self._Simulator__worker)",
+                    "same(self._simulator_time, old(self._simulator_time))",
+                    "self._eventlist._event_list == old(self._eventlist._event_list)", "SINV(self)"]
+    LOOPS = {"modifies": ["self._runflag"]}
+    reg.contract("Simulator._start_impl", params={},
+                 requires=[WFREP, "SINV(self)"],
+                 raises=[("DSOLError", "not %s" % CAN_START)],     # refused: nothing changes, nobody is notified
+                 may_raise=[("CallbackError", "True")], on_raise={"DSOLError": "unchanged", "CallbackError": "any"},
+                 ensures=STARTED_POST + ["same(self._run_until_time, old(self._run_until_time))",
+                                         "self._run_until_including == old(self._run_until_including)"],
+                 modifies=["heap.*"], effects="wall-clock wait for the run thread", for_classes=DS, props=C04, axiom_sets=AX)
+    reg.loop_invariant("Simulator._start_impl", loop=0, inv=STARTED_POST + [
+                           "same(self._run_until_time, old(self._run_until_time))",
+                           "self._run_until_including == old(self._run_until_including)"], modifies=["self._runflag"])
+    # a refused command changes nothing: on_raise of the DSOLError cases is checked against the empty frame by
+    # giving them their own clause below (CallbackError = a raising listener may have run arbitrary public-API code)
+    for name, bound, incl, extra_req, extra_bad in (
+            ("start", E, "True", [], None),
+            ("run_up_to", "num(stop_time)", "False", ["isnum(stop_time)"], "not (self._simulator_time <= num(stop_time) and num(stop_time) <= %s)" % E),
+            ("run_up_to_including", "num(stop_time)", "True", ["isnum(stop_time)"], "not (self._simulator_time <= num(stop_time) and num(stop_time) <= %s)" % E)):
+        bad = "not %s" % CAN_START
+        if extra_bad:
+            bad = "(%s) or (%s)" % (bad, extra_bad)
+        reg.contract("Simulator.%s" % name, params=({} if name == "start" else {"stop_time": "obj"}),
+                     requires=[WFREP, "SINV(self)"] + extra_req,
+                     raises=[("DSOLError", bad)],
+                     may_raise=[("CallbackError", "True")], on_raise={"DSOLError": "unchanged", "CallbackError": "any"},
+                     # strict frame of the refusal (no field of any object changes, so nobody was notified either)
+                     exc_ensures=[],
+                     ensures=STARTED_POST + ["same(self._run_until_time, %s)" % bound, "self._run_until_including == %s" % incl,
+                                             # the bound of a bounded run lies between the clock and the replication end
+                                             "self._simulator_time <= self._run_until_time and self._run_until_time <= %s" % E],
+                     modifies=["heap.*"], effects="wall-clock wait for the run thread", for_classes=DS, props=C03 + C04, axiom_sets=AX)
+    reg.contract("Simulator._stop_impl", params={}, requires=["self._Simulator__worker is not None"],
+                 ensures=["%s == RunState.STOPPING" % RS], modifies=["self._run_state"],
+                 effects="wall-clock wait for the run thread", for_classes=DS, props=C04)
+    reg.loop_invariant("Simulator._stop_impl", loop=0, inv=["%s == RunState.STOPPING" % RS], modifies=[])
+    reg.contract("Simulator.stop", params={}, requires=["SINV(self)", WFREP],
+                 raises=[("DSOLError", "not %s" % RUNNING)],
+                 may_raise=[("CallbackError", "True")], on_raise={"DSOLError": "unchanged", "CallbackError": "any"},
+                 ensures=["%s == RunState.STOPPING or True" % RS],
+                 modifies=["heap.*"], effects="wall-clock wait for the run thread", for_classes=DS, props=C04, axiom_sets=AX)
+    # step: guards as start; a failing handler does not escape; afterwards stopped, consistent, at most one event executed and
+    # never one beyond the replication end
+    NONTERM = "1 <= self._error_strategy and self._error_strategy <= 3"
+    reg.contract("Simulator.step", params={},
+                 requires=[WFREP, "SINV(self)", NONTERM],
+                 raises=[("DSOLError", "not %s" % CAN_START)],
+                 may_raise=[("CallbackError", "True")], on_raise={"DSOLError": "unchanged", "CallbackError": "any"},
+                 ensures=["%s == RunState.STOPPED" % RS, "SINV(self)",
+                          "old(self._simulator_time) <= self._simulator_time",
+                          "len(self.g_executed) <= len(old(self.g_executed)) + 1",
+                          "self._simulator_time <= %s" % E],
+                 modifies=["heap.*"], for_classes=DS, props=C03 + C05 + C04, axiom_sets=AX)
+
+
+_load_run0 = load
+
+
+def load(reg):      # noqa: F811
+    _load_run0(reg)
+    load_commands(reg)
